@@ -77,6 +77,8 @@ def default_execute(scn, ctx, timeout=10.0, digests=False):
         fmt = run.get("fmt", "list")
         if fmt == "list":
             o["rows"] = lib.split_list(r["stdout"], run.get("ncols", 1))
+            if run.get("chars"):
+                o["rows"] = [[list(c) for c in row] for row in o["rows"]]
         elif fmt == "bytes":
             o["bytes"] = list(r["stdout"])
         elif fmt == "text":
